@@ -1056,7 +1056,7 @@ class Median(GroupByShift):
     def npartitions(self):
         npartitions = self.frame.npartitions
         if self.split_every is not None:
-            npartitions = npartitions // self.split_every
+            npartitions = max(npartitions // self.split_every, 1)
         return npartitions
 
 
